@@ -516,6 +516,9 @@ func unpack_iterable(vm *Vm, v py.Object, argcnt int, argcntafter int, sp int) e
 		w, err := py.Next(it)
 		if err != nil {
 			/* Iterator done, via error or exhaustion. */
+			if !py.IsException(py.StopIteration, err) {
+				return err
+			}
 			return py.ExceptionNewf(py.ValueError, "need more than %d value(s) to unpack", i)
 		}
 		sp--
@@ -524,8 +527,11 @@ func unpack_iterable(vm *Vm, v py.Object, argcnt int, argcntafter int, sp int) e
 
 	if argcntafter == -1 {
 		/* We better have exhausted the iterator now. */
-		_, finished := py.Next(it)
-		if finished != nil {
+		_, err := py.Next(it)
+		if err != nil {
+			if !py.IsException(py.StopIteration, err) {
+				return err
+			}
 			return nil
 		}
 		return py.ExceptionNewf(py.ValueError, "too many values to unpack (expected %d)", argcnt)
